@@ -221,7 +221,7 @@ def session_odd(rng, ops):
 
 def gen(rng, tier):
     ops = []
-    for s in range(budget(tier, 1500, 50000)):
+    for s in range(budget(tier, 1500, 30000)):
         r = rng.randrange(20)
         if r < 8:
             session_a(rng, ops)
